@@ -39,6 +39,12 @@ S = [
     (r"\brelease_offset\s*\(", "giveBack"),
 ]
 
+P = [
+    (r"\bupdate_connections\s*\(", "refresh"),
+    (r"\badd_sample_to_history\s*\(", "addHistory"),
+    (r"\bdeliver_offset\s*\(", "deliver"),
+]
+
 # (lean name, file, impl type (word that must occur in the impl header), fn name, vocabulary, expected number of definitions)
 TABLE = [
     ("entryValueUninit_new", "iceoryx2/src/port/writer.rs", "EntryValueUninit", "new", W),
@@ -49,6 +55,7 @@ TABLE = [
     ("internalEntryValueUninit_update", "iceoryx2/src/port/writer.rs", "__InternalEntryValueUninit", "update", W),
     ("client_sendRequest", "iceoryx2/src/port/client.rs", "ClientSharedState", "send_request", C),
     ("server_receive", "iceoryx2/src/port/server.rs", "Server", "receive", S),
+    ("publisher_sendSample", "iceoryx2/src/port/publisher.rs", "PublisherSharedState", "send_sample", P),
 ]
 
 
